@@ -48,7 +48,8 @@ template <class X> struct UriBox {
         live = false;
     }
     int make_owner() { LibScope ls; return led ? X::MakeOwnerMm(&u, led->mgr()) : X::MakeOwner(&u); }
-    int normalize(unsigned mask) { LibScope ls; return led ? X::NormalizeSyntaxExMm(&u, mask, led->mgr()) : X::NormalizeSyntaxEx(&u, mask); }
+    // all three entry points: ...ExMm under a custom manager, ...Ex, and the plain uriNormalizeSyntax (= every bit set) for mask ~0
+    int normalize(unsigned mask) { LibScope ls; return led ? X::NormalizeSyntaxExMm(&u, mask, led->mgr()) : mask == (unsigned)-1 ? X::NormalizeSyntax(&u) : X::NormalizeSyntaxEx(&u, mask); }
     int str(Str* out) const { AttrScope at("C05"); return to_string<X>(u, out); }
     // Text of the object by the harness' own recomposition of the fields (independent of uriToString): used by the checks
     // whose property is not about recomposition, so that a recomposition defect is not blamed on them.
